@@ -19,7 +19,7 @@ from pipefunc.map import load_outputs
 
 WHY = L.WHY
 OUTSIDE = (
-    "real thread / process pools and OS scheduling, map_async (asyncio's event loop does not run under the symbolic executor), "
+    "real thread / process pools and OS scheduling (map_async is driven through a single-threaded event loop), "
     "the real shared_memory_dict; tasks of one generation only interleave at task granularity (a task runs to completion)"
 )
 ASSUMPTIONS = [
@@ -65,6 +65,81 @@ class _Fut(Future):
         if not self.done():
             self._ex.run_some(self)
         return super().result(timeout)
+
+
+class AsyncSymExecutor(Executor):
+    """for map_async: a submitted task completes when the event loop runs `_step`; which pending task
+    completes next is chosen by symbolic ints (single-threaded, deterministic given the choices)"""
+
+    def __init__(self, choices):
+        self.pending = []
+        self.choices = list(choices)
+
+    def submit(self, fn, *args, **kwargs):
+        import asyncio
+
+        fut = Future()
+        self.pending.append((fut, fn, args, kwargs))
+        asyncio.get_event_loop().call_soon(self._step)
+        return fut
+
+    def _step(self):
+        if not self.pending:
+            return
+        n = len(self.pending)
+        c = self.choices.pop(0) if self.choices else 0
+        idx = L.concretize(c % n, 0, n - 1) if n > 1 else 0
+        fut, fn, args, kwargs = self.pending.pop(idx)
+        try:
+            fut.set_result(fn(*args, **kwargs))
+        except Exception as e:  # noqa: BLE001
+            fut.set_exception(e)
+
+
+def sched_async(tid, storage_kind, c0, c1, c2, c3, n0, n1, n2, *vals):
+    """Pipeline.map_async with a symbolic completion order: same results, stored data and call counts"""
+    import asyncio
+
+    L.reset()
+    t = T[tid]
+    n, v = tmpl.sizes_and_values(n0, n1, n2, vals)
+    try:
+        with NoTracing():
+            from engine import shims
+
+            shims.TOK.clear()
+            log = tmpl.Log()
+            p = tmpl.make_pipeline(t.funcs, log)
+            folder = L.scratch_dir() if storage_kind != "dict" else None
+        storage = _storage(storage_kind, t)
+        inputs = t.inputs(n, v)
+        ref, ncalls = tmpl.reference(t.funcs, inputs)
+
+        async def main():
+            ex = AsyncSymExecutor([c0, c1, c2, c3])
+            r = p.map_async(dict(inputs), run_folder=folder, storage=storage, executor=ex)
+            return await r.task
+
+        # an explicit loop: asyncio.run() installs signal handlers whose repr() formats (realises) task results
+        loop = asyncio.new_event_loop()
+        try:
+            asyncio.set_event_loop(loop)
+            res = loop.run_until_complete(main())
+        finally:
+            asyncio.set_event_loop(None)
+            loop.close()
+        if not tmpl.compare_results(t.funcs, res, ref):
+            return False
+        if not tmpl.compare_calls(t.funcs, log, ncalls):
+            return False
+        if folder is not None:
+            for fs in t.funcs:
+                for o in fs.outputs:
+                    if not tmpl.same_value(load_outputs(o, run_folder=folder), ref[o]):
+                        return fail(f"stored data of {o} differ")
+        return True
+    finally:
+        L.cleanup_dirs()
 
 
 def _storage(kind, t):
@@ -208,6 +283,22 @@ def obligations(tier):
                 bounds=f"{tid}: {t.doc}; storage {st}; executor {ek}; the first {nch} scheduling choices symbolic in 0..3 (all completion orders of up to "
                 f"4 pending tasks), sizes 1..{hi}; values unbounded",
                 canaries=("results_paired_by_completion_order",) if (tid, st, ek) == ("T1", "dict", "single") else (),
+            )
+        )
+    acases = [("T1", "dict", 3), ("T4", "dict", 2), ("T8", "file_array", 2), ("T17", "dict", 2)]
+    if thorough:
+        acases += [(tid, st, 2) for tid in ("T3", "T5", "T12", "T7p") for st in ("dict", "file_array", "mix_file_first")]
+    for tid, st, hi in acases:
+        t = T[tid]
+        obs.append(
+            Ob(
+                f"async_{tid}_{st}",
+                C[:4] + MAP_PARAMS,
+                [" and ".join(f"0 <= c{i} <= 3" for i in range(4))] + tmpl.size_pre(t, hi),
+                f"H.sched_async({tid!r}, {st!r}, c0, c1, c2, c3, {MAP_ARGS})",
+                timeout=600,
+                flags=("tokpickle",),
+                bounds=f"{tid}: map_async with an event-loop-driven executor whose completion order is chosen by 4 symbolic ints; storage {st}; sizes 1..{hi}",
             )
         )
     return obs
